@@ -9,6 +9,7 @@ import (
 
 	"github.com/invopop/gobl"
 	"github.com/invopop/gobl/dsig"
+	"github.com/invopop/gobl/head"
 	"github.com/invopop/gobl/internal/iotools"
 )
 
@@ -32,7 +33,12 @@ func Verify(ctx context.Context, in io.Reader, key *dsig.PublicKey) error {
 	if !env.Signed() {
 		return wrapErrorf(http.StatusUnprocessableEntity, "envelope is not signed")
 	}
-	if err := env.Signatures[0].VerifyPayload(key, env); err != nil {
+	// the first signature must have been made with the key provided...
+	if err := env.Signatures[0].VerifyPayload(key, new(head.Header)); err != nil {
+		return wrapError(http.StatusUnprocessableEntity, err)
+	}
+	// ...and every signed header must still be contained in the envelope's header
+	if err := env.Verify(key); err != nil {
 		return wrapError(http.StatusUnprocessableEntity, err)
 	}
 	return nil
